@@ -237,7 +237,21 @@ class KmipSession(threading.Thread):
                     )
 
         response_data = utils.BytearrayStream()
-        response.write(response_data, kmip_version=kmip_version)
+        try:
+            response.write(response_data, kmip_version=kmip_version)
+        except Exception as e:
+            self._logger.warning(
+                "An unexpected error occurred while encoding the response."
+            )
+            self._logger.exception(e)
+            response = self._engine.build_error_response(
+                request.request_header.protocol_version,
+                enums.ResultReason.GENERAL_FAILURE,
+                "An unexpected error occurred while encoding the response. "
+                "See server logs for more information."
+            )
+            response_data = utils.BytearrayStream()
+            response.write(response_data, kmip_version=kmip_version)
 
         if len(response_data) > max_size:
             self._logger.warning(
